@@ -9,8 +9,10 @@ import (
 )
 
 // Direct reproduction against the real code of the C17 finding
-// rotation/split/*: ValidatorSet.IncrementAccum(k) is not k times
-// IncrementAccum(1). consensus.enterNewRound calls
+// rotation/split/* (present up to /repo commit c539d5c; repaired afterwards by
+// making IncrementAccum(k) perform k single rotations — on a repaired tree
+// these tests log "no difference"): ValidatorSet.IncrementAccum(k) is not k
+// times IncrementAccum(1). consensus.enterNewRound calls
 // validators.IncrementAccum(round - cs.Round) on a copy, so a node that skips
 // from round 0 to round k and a node that walks there one timeout at a time
 // name different proposers for (H, k).
